@@ -376,8 +376,10 @@ func CheckC20(e *Env) int {
 			rep.Incon = append(rep.Incon, "harness: "+pr.P.ID+": "+firstLine(pr.PreBad))
 			continue
 		}
-		if pr.Crash != "" {
-			rep.Violate(pr.P.ID, Issue{Prop: "C20", Clause: "panic instead of a diagnostic (result-kind matrix)", Witness: pr.Crash, Sig: "C20:panic:result-kind:" + pr.P.Feat["kinds"]}, pr.P.Files(false), nil)
+		// the same oracle as for the spelling forms: status 0 with output, or a positioned diagnostic
+		before := len(rep.Violations)
+		judgeForm(rep, formCase{Name: "result-kind:" + pr.P.Feat["kinds"], Documented: true}, pr, "")
+		if len(rep.Violations) > before {
 			continue
 		}
 		rep.Held("result-kind:" + pr.P.Feat["kinds"] + pr.P.Feat["typepkg"])
